@@ -55,6 +55,12 @@ def build(desc, poly=False):
     templates = {}
     w = ocp.variable()
     master.w = w
+    # the parent's own parameters (a 2-vector and a scalar) and a second variable: used by the 'par' terms
+    master.pa = ocp.parameter(2)
+    master.pb = ocp.parameter()
+    master.w2 = ocp.variable()
+    ocp.set_value(master.pa, ca.DM([1.5, -0.75]))
+    ocp.set_value(master.pb, 2.25)
 
     def hv(k):
         return FreeTime(float(k[1])) if k[0] == 'free' else float(k[1])
@@ -103,6 +109,10 @@ def build(desc, poly=False):
             ocp.add_objective(w * w)
         elif p[0] == 'T':
             ocp.add_objective(B[p[1]].stage.T)
+        elif p[0] == 'par':
+            # parent-level constraint and objective over the parent's own variables AND parameters
+            ocp.subject_to(master.w2 >= master.pa[1] * w + master.pb)
+            ocp.add_objective(master.pa[0] * master.w2 * master.w2 + master.pb * w)
     master.templates = templates
     master.desc = desc
     return master
@@ -129,7 +139,7 @@ def instances(tier, seed):
             coupling = [('cont', i, i + 1) for i in range(ns - 1)]
             coupling += [('time', i, i + 1) for i in range(ns - 1) if stages[i + 1]['t0'][0] == 'free']
             coupling += [('wge', ns - 1)]
-            add(kind='direct', desc=dict(stages=stages, coupling=coupling, parent=[('w2',), ('T', 0)]))
+            add(kind='direct', desc=dict(stages=stages, coupling=coupling, parent=[('w2',), ('T', 0)] + ([('par',)] if n % 2 == 0 else [])))
             n += 1
     # clones
     for rep in range(reps):
@@ -145,6 +155,47 @@ def instances(tier, seed):
             coupling = [('cont', i, i + 1) for i in range(len(stages) - 1)] + [('wge', 0)]
             add(kind='clone', desc=dict(stages=stages, coupling=coupling, parent=[('w2',)]))
             n += 1
+    # a template whose constraints shift time-dependent expressions by whole intervals (the shifted expression refers to the template's time)
+    from ..dsl import offset
+    tpl_off = stage_model(0)
+    tpl_off.cons = list(tpl_off.cons) + [Con('<=', offset(X(0) * t, 1) - X(0), 4), Con('>=', offset(X(1) + t, -1), X(0) - 6)]
+    add(kind='clone', desc=dict(stages=[dict(spec=tpl_off, cfg=cfgs[0], t0=hz[2][0], T=hz[2][1], clone_of='tpl', pvals={}),
+                                        dict(spec=stage_model(1), cfg=cfgs[1], t0=hz[0][0], T=hz[0][1], clone_of=None)], coupling=[('cont', 0, 1), ('wge', 0)], parent=[('w2',)]))
+    # a template with an explicitly declared quadrature state and DT / DT_control in its constraints
+    from ..dsl import Q, DT, DTc
+    tpl_q = stage_model(0)
+    tpl_q.quads = [X(0) * X(0) + t]
+    tpl_q.objective = list(tpl_q.objective) + [at_tf(Q(0))]
+    tpl_q.cons = list(tpl_q.cons) + [Con('<=', X(1) * DTc, 5), Con('>=', X(0) * DT, -7, grid='integrator')]
+    add(kind='clone', desc=dict(stages=[dict(spec=tpl_q, cfg=cfgs[0], t0=hz[0][0], T=hz[0][1], clone_of='tpl', pvals={}),
+                                        dict(spec=stage_model(1), cfg=cfgs[3], t0=hz[2][0], T=hz[2][1], clone_of=None)], coupling=[('cont', 0, 1), ('wge', 0)], parent=[('w2',)]))
+    # seeded random stage contents (model, constraint set, objective, guesses): direct and cloned
+    from .. import randspec
+    rr = random.Random(seed * 7919 + 1212)
+
+    def rstage(method):
+        s_ = fam.random_dae(rr) if (method == 'DC' and rr.random() < 0.3) else fam.random_ode(rr, nx=2, nu=1)
+        if s_.nx != 2:
+            s_ = fam.random_ode(rr, nx=2, nu=1)
+        s_.t0, s_.T = ('num', Fr(1, 2)), ('num', Fr(1))      # (generators look at the horizon kind only)
+        s_.cons = randspec.random_constraints(rr, s_, method, 1)
+        s_.objective = randspec.random_objective(rr, s_, method)
+        s_.initial = [(X(0), Fr(3, 2))]
+        s_.note = 'random stage'
+        return s_
+    for ri in range(3 if tier == 'quick' else 60):
+        ns = rr.choice([2, 2, 3])
+        stages = []
+        for i in range(ns):
+            cfg = copy.deepcopy(rr.choice(cfgs))
+            h = rr.choice(hz[0:1] + hz[2:3]) if i == 0 else rr.choice(hz)
+            if rr.random() < 0.3 and i > 0 and stages[0]['clone_of'] is None and stages[0].get('rt'):
+                stages.append(dict(spec=stages[0]['spec'], cfg=stages[0]['cfg'], t0=h[0], T=h[1], clone_of='rt', pvals={}))
+            else:
+                asclone = rr.random() < 0.3
+                stages.append(dict(spec=rstage(cfg.method), cfg=cfg, t0=h[0], T=h[1], clone_of='rt%d' % i if asclone else None, pvals={}, rt=True))
+        coupling = [('cont', i, i + 1) for i in range(ns - 1)] + [('wge', ns - 1)]
+        add(kind='clone' if any(s_['clone_of'] for s_ in stages) else 'direct', desc=dict(stages=stages, coupling=coupling, parent=[('w2',)]), soft=True, family='random')
     # templates with their own (non-zero) window; clones overriding both, one or none of t0/T, including the override t0 = 0
     tph = (('num', Fr(1, 2)), ('num', Fr(3)))
     variants = [(('t0', 'T'), (('num', Fr(0)), ('num', Fr(3, 2)))), (('t0',), (('num', Fr(0)), tph[1])), (('T',), (tph[0], ('free', Fr(2)))),
@@ -201,6 +252,11 @@ def ref_all(inst, master, d, mut=None):
             obj = obj + wv * wv
         elif p[0] == 'T':
             obj = obj + trs[p[1]].T
+        elif p[0] == 'par':
+            wr = (lambda v: v) if d != 'z' else inst.rdom.wrap
+            w2v, pa0, pa1, pbv = wr(o[1][0]), wr(o[2][0]), wr(o[2][1]), wr(o[3][0])
+            atoms.append(('le', pa1 * wv + pbv - w2v, 'parent:w2>=pa1*w+pb'))
+            obj = obj + pa0 * w2v * w2v + pbv * wv
     return atoms, obj
 
 
@@ -208,7 +264,7 @@ def run(item):
     desc = item['desc']
     with quiet():
         master = build(desc)
-    inst = Inst(None, None, seed=item.get('seed', 0), built=master, extra_outputs=lambda b: [b.ocp.value(b.w)])
+    inst = Inst(None, None, seed=item.get('seed', 0), built=master, extra_outputs=lambda b: [b.ocp.value(b.w), b.ocp.value(b.w2), b.ocp.value(b.pa), b.ocp.value(b.pb)])
     ch = Checker(inst)
     z3 = inst.z3
     viol = []
@@ -228,8 +284,11 @@ def run(item):
     ra = {d: [ra[d][j] for j in keep] for d in ra}
     impa = impl_atoms(inst)
     pairs, un_ref, un_impl = ch.match(ra, impa)
+    from .c04 import tautology
     for j in un_ref:
         lab = ra['z'][j][2]
+        if ra['z'][j][0] == 'le' and tautology(ch, ra['z'][j][1]):
+            continue        # e.g. x*x >= 0: CasADi folds the relation to `true`; no restriction of the feasible set
         V('missing:%s' % ('coupling' if lab.startswith('couple') else 'stage-row'), lab, 'expected row of the union has no equal row in the multi-stage NLP')
     # model variables of all stages
     trsz = inst.trajs('z')
@@ -258,6 +317,29 @@ def run(item):
     if not ch.prove('f == sum of stage objectives + parent terms', fi, ro) and ch.violations:
         v = ch.violations.pop()
         V('objective', 'f', 'multi-stage objective is not the sum: %s' % {k: v.get(k) for k in ('how', 'impl', 'ref')})
+    # the parent's own symbols: variables read back as decision variables, parameters as NLP parameters carrying the values that were set
+    oz = inst.view('z')[5]
+    xnames = {str(v) for v in inst.xv}
+    pnames = {str(v) for v in inst.pv}
+    for nm, terms, want in (('w', [oz[0][0]], 'x'), ('w2', [oz[1][0]], 'x'), ('pa', list(oz[2]), 'p'), ('pb', [oz[3][0]], 'p')):
+        for t_ in terms:
+            st_ = str(z3.simplify(emb(t_)))
+            if st_ not in (xnames if want == 'x' else pnames):
+                V('parent-symbol-kind', nm, "value(%s) of the parent is %s, which is not a plain NLP %s" % (nm, st_[:60], 'decision variable' if want == 'x' else 'parameter'))
+    o0 = inst.view(0)[5]
+    pvals = None
+    try:
+        nlp = inst.nlp
+        fo = inst.prog.run(inst.fdom, nlp.split(list(nlp.x0()), nlp.xsyms) + nlp.split(list(nlp.pval()), nlp.psyms))
+        ex0 = fo[4 + len(inst.named.items):]
+        pvals = [float(ex0[2][0]), float(ex0[2][1]), float(ex0[3][0])]
+    except Exception:
+        pass
+    if pvals is not None:
+        if not all(close(a_, b_) for a_, b_ in zip(pvals, [1.5, -0.75, 2.25])):
+            V('parent-parameter-values', 'pa, pb', 'values of the parent parameters in the NLP are %s, set_value gave [1.5, -0.75, 2.25]' % pvals)
+        else:
+            ch.proved.append('parent parameter values (ground)')
     twins_ok = twins_bad = 0
     if not mut and any(c[0] == 'cont' for c in desc['coupling']):
         ch2 = Checker(inst, timeout_ms=5000)
@@ -275,7 +357,7 @@ def run(item):
             s['clone_of'] = None
         with quiet():
             m2 = build(d2)
-        D = Inst(None, None, seed=item.get('seed', 0), built=m2, like=inst, bind=bind_positional(), extra_outputs=lambda b: [b.ocp.value(b.w)])
+        D = Inst(None, None, seed=item.get('seed', 0), built=m2, like=inst, bind=bind_positional(), extra_outputs=lambda b: [b.ocp.value(b.w), b.ocp.value(b.w2), b.ocp.value(b.pa), b.ocp.value(b.pb)])
         diffs, np2 = compare_nlps(ch, inst, D, 'cloned', 'direct')
         for key, label, detail in diffs:
             V('clone:' + key, label, detail)
@@ -287,10 +369,11 @@ def run(item):
             V('clone:p-differs', 'p', 'parameter values of the cloned OCP %s differ from the directly declared one %s (a value set on one clone leaked?)' % (pa, pb))
         else:
             ch.proved.append('clone parameter values == direct')
-        tkey = desc['stages'][0]['clone_of']
+        first_clone = [s_ for s_ in desc['stages'] if s_['clone_of'] is not None][0]
+        tkey = first_clone['clone_of']
         tpl, bt = master.templates[tkey]
-        th = desc['stages'][0].get('tpl_h') or (('num', Fr(0)), ('num', Fr(1)))
-        spec_t = desc['stages'][0]['spec']
+        th = first_clone.get('tpl_h') or (('num', Fr(0)), ('num', Fr(1)))
+        spec_t = first_clone['spec']
         for p_ in spec_t.params:
             if p_.grid == '' and p_.value is not None:
                 try:
